@@ -135,7 +135,7 @@ mut("M03", "conn.go", """		if err == errPanic {
 		}
 
 		c.lineLimitReader.LineLimit = c.server.MaxLineLength
-		return""", ["C03", "C07"], "handleBdat", note="failed chunk does not end the transaction")
+		return""", ["C03"], "handleBdat", note="failed chunk does not end the transaction")
 mut("M27", "conn.go", "	io.Copy(ioutil.Discard, io.LimitReader(c.text.R, int64(size)))\n	c.lineLimitReader.LineLimit = c.server.MaxLineLength\n}", "	io.Copy(ioutil.Discard, io.LimitReader(c.text.R, int64(size)-1))\n	c.lineLimitReader.LineLimit = c.server.MaxLineLength\n}", ["C05"], "chunk-consumed", note="refused chunk: one octet too few discarded")
 mut("M24", "conn.go", "	if last {\n		c.lineLimitReader.LineLimit = c.server.MaxLineLength\n\n		c.bdatPipe.Close()", "	if last || size == 0 {\n		c.lineLimitReader.LineLimit = c.server.MaxLineLength\n\n		c.bdatPipe.Close()", ["C05", "C07"], "clean-eof-only-after-complete-last-chunk", note="pipe closed cleanly on an empty non-LAST chunk")
 mut("M39", "conn.go", "	c.bdatStatus = nil\n	c.bytesReceived = 0\n", "	c.bdatStatus = nil\n", ["C06", "C03"], "reset/post:tx-discarded", note="reset keeps bytesReceived")
